@@ -7,10 +7,10 @@ import (
 	"fmt"
 	"go/ast"
 	"go/constant"
-	"strconv"
 	"go/token"
 	"go/types"
 	"sort"
+	"strconv"
 	"strings"
 
 	"golang.org/x/tools/go/ssa"
@@ -879,7 +879,7 @@ func resolveLoopKey(texts []string, key string) (int, bool) {
 			want, nth = strings.TrimSpace(key[:i]), n
 		}
 	}
-	norm := func(s string) string { return strings.Join(strings.Fields(s), " ") }
+	norm := func(s string) string { return strings.Join(strings.Fields(s), "") }
 	k := 0
 	for i, t := range texts {
 		if norm(t) == norm(want) {
